@@ -8,7 +8,7 @@ def add(i, cat, text, ref, note, tech):
     M[i] = dict(cat=cat, text=text, ref=ref, note=note, tech=tech)
 
 add('C12', 'exploration',
-    'Complete Cartesian product of viewBox sizes and target sizes (21 values = 7 binades x 3 mantissas; thorough 48 values over 2^-20..2^20), 3 viewBox origins (MinX != MinY) and 16 alignment pairs for AspectMeet and AspectSlice, plus two extreme families (all dimensions ~2^64 resp. ~2^-80, where products of two dimensions overflow resp. underflow float32), each compared with an exact rational/float64 reference fit plus the structural clauses of the statement (aspect, inside/covering, equal in one dimension, alignment, Size).',
+    'Complete Cartesian product of viewBox sizes and target sizes (28 values = 7 binades x 4 mantissas; thorough 60 values over 2^-20..2^20), 3 viewBox origins (MinX != MinY) and 25 alignment pairs (0, 0.25, 0.3, 0.5, 1 per axis) for AspectMeet and AspectSlice, plus two extreme families (all dimensions ~2^64 resp. ~2^-80, where products of two dimensions overflow resp. underflow float32), each compared with an exact rational/float64 reference fit plus the structural clauses of the statement (aspect, inside/covering, equal in one dimension, alignment, Size).',
     'DESIGN.md 3/C12', 'float32 arithmetic on linux/amd64; tolerance 2^-18 relative to the target side or result extent per axis',
     'exhaustive product enumeration of a pure function against an exact reference')
 add('C03', 'exploration',
